@@ -18,7 +18,7 @@ ASSUMPTIONS = ['data excludes ~ * : (the converter\'s fixed output delimiters; X
                'the component separator (it is the value of ISA16) is a character XML 1.0 can represent; segment and element separators may be control characters',
                'the id of the <comp> wrapper element is not asserted (the property names elements and components)',
                'the intended map path of each segment is the generator\'s ground truth (unambiguous sub-language, DESIGN 4.1)']
-REQUIRED_COUNTERS = ['cli:invocations', 'cli:round-trips-compared', 'docs:component-separator-inside-a-simple-element', 'docs:with-doctype', 'docs', 'segments-compared', 'elements-compared', 'subelements-compared', 'roundtrips', 'docs:escaped-chars', 'docs:repeated-loop', 'docs:notused-filled', 'reach:x12xml_simple.seg']
+REQUIRED_COUNTERS = ['docs:with-TA1', 'cli:invocations', 'cli:round-trips-compared', 'docs:component-separator-inside-a-simple-element', 'docs:with-doctype', 'docs', 'segments-compared', 'elements-compared', 'subelements-compared', 'roundtrips', 'docs:escaped-chars', 'docs:repeated-loop', 'docs:notused-filled', 'reach:x12xml_simple.seg']
 MIN_CASES = {'quick': 200, 'thorough': 6000}
 WATCHDOG_S = {'quick': 1200, 'thorough': 7200}
 
@@ -295,6 +295,10 @@ def run(ctx):
             if len(doc.recs) > 1500:
                 ctx.count('skipped-large')
                 continue
+            if k % 4 == 2:
+                # the envelope map's own optional segment: an interchange acknowledgement after the ISA or after the last group
+                doc = gen_doc.add_ta1(doc, ['after-isa', 'before-iea'][(k // 4) % 2])
+                ctx.count('docs:with-TA1')
             if k % 7 == 3:
                 # one or two plain AN elements get data that holds the component separator ('X<sep>Y', '<sep>Y'): an element error, but the segment
                 # is still located in its map, so rendering and round trip must carry the text unchanged
@@ -307,7 +311,7 @@ def run(ctx):
                     for (i2, node2, ep2, sp2, cur2) in sites[:rng.choice([1, 2])]:
                         doc.recs[i2].vals[ep2 - 1] = rng.choice([['X', 'Y'], ['', 'Y'], ['SEE ATTACHED', ' OP REPORT'], ['A', '', 'C']])
                     ctx.count('docs:component-separator-inside-a-simple-element')
-            case = {'map': e['file'], 'entry': e, 'gen_seed': seed, 'params': kw, 'terms': list(terms), 'simple_dtd': [None, 'x12simple.dtd', None, 'http://example.invalid/dtd/x12simple.dtd', None][k % 5]}
+            case = {'map': e['file'], 'entry': e, 'gen_seed': seed, 'params': kw, 'terms': list(terms), 'simple_dtd': [None, 'x12simple.dtd', None, 'http://example.invalid/dtd/x12simple.dtd', None][k % 5], 'ta1': doc.meta.get('ta1')}
             judge(ctx, doc, terms, case, sigs)
             n += 1
             if k % 6 == 2 and not case.get('simple_dtd'):
@@ -321,4 +325,6 @@ def run(ctx):
 def replay(ctx, case):
     install(ctx)
     doc = gen_doc.gen_document(case['entry'], case['gen_seed'], **case['params'])
+    if case.get('ta1'):
+        doc = gen_doc.add_ta1(doc, case['ta1'])
     judge(ctx, doc, tuple(case['terms']), case, set())
